@@ -80,10 +80,14 @@ PROPS["C07"] = dict(
     e2=["c07"],
 )
 PROPS["C05"] = dict(
-    bounds="arbitrary builder state (lazy initialisation) for the gate; accounting getters over 1-3 stored items; every amount over all u64; one arbitrary asset (pointwise abstraction)",
-    assumptions=["Value operations act pointwise as stated in mir2smt/valuemodel.py (summaries established by the C14 E1 harnesses)",
-                 "claim is for transactions released through build_tx (build()/build_tx_unsafe() have no gate); the change-splitting code itself is not executed: a bug there makes build_tx fail, which the property permits",
-                 "callees named in each obligation are uninterpreted pure functions of the (unmodified) builder"],
+    bounds="arbitrary builder state (lazy initialisation) for the gate and for the balancing step; accounting getters over 1-3 stored items; every amount over all u64; one arbitrary asset (pointwise abstraction); "
+           "balancing step: one call, fee request Unspecified / NotLess / Exactly, prefer_pure_change and do_not_burn_extra_change both ways, 0..2 packed bundles per round, 1 round (quick) / 2 rounds (thorough), "
+           "change datum / script reference absent (quick) or arbitrary (thorough)",
+    assumptions=["Value operations act pointwise as stated in mir2smt/valuemodel.py (summaries established by the C14 obligations on shaped bundles)",
+                 "balancing step: the raw size-dependent min_fee(&builder), MinOutputAdaCalculator, pack_nfts_for_change and add_output are stubs with arbitrary results whose failure is explored at the first call of each kind per path; "
+                 "get_input_shortage returns an arbitrary verdict; TransactionBuilder::min_fee / fee_for_output enter through contracts proved from their MIR by c05_e2_fee_alignment_*; one output is already present in the builder; "
+                 "panicking paths are outside the property (it speaks about reported successes) and are only counted in the log",
+                 "coin selection (add_inputs_from) is C08's claim; callees named in each obligation are uninterpreted pure functions of the (unmodified) builder"],
     e1=[],
     e2=["c05"],
 )
